@@ -2,4 +2,4 @@
 From Coq Require Import Extraction ExtrOcamlBasic.
 From GrolModel Require Import Memo.
 Extraction Language OCaml.
-Extraction "memo_model.ml" init_state run eval inspect has_function closed_hist closed_fn.
+Extraction "memo_model.ml" init_state run eval inspect has_function closed_hist closed_fn closed_session.
